@@ -195,13 +195,19 @@ theorem Inv1.watchers {s : AState} (i : Inv1 s) (a : Acct) (acts : List String) 
   repeat' split
   all_goals (try inv1_prims)
 
+theorem Inv1.expiryRearm {s : AState} (i : Inv1 s) (a : Acct) (acts : List String) :
+    Inv1 (expiryRearm s a acts) := by
+  unfold Pool.C08.expiryRearm; split
+  · exact Inv1.watchExpiration i _
+  · exact i
+
 theorem Inv1.resumeRest {s : AState} (i : Inv1 s) (a : Acct) (r : Bool) : Inv1 (resumeRest s a r).1 := by
   unfold Pool.C08.resumeRest
   split
   · exact i
   · simp only []
     split
-    · exact Inv1.watchers (Inv1.rebroadcast i _ _ _) _ _
+    · exact Inv1.expiryRearm (Inv1.watchers (Inv1.rebroadcast i _ _ _) _ _) _ _
     · exact Inv1.rebroadcast i _ _ _
 
 end Pool.C08
@@ -504,6 +510,7 @@ theorem Inv1.step {s : AState} (i : Inv1 s) (op : Op) (hop : OpOK s.key op) : In
     · exact i0
     · rename_i a ha
       exact Inv1.resume i0 _ _ _ _ _ (stored_full (i.acctOK a ha))
+  | flush => exact Inv1.setW i _
   | recover a known =>
     simp only [Pool.C08.step]
     obtain ⟨h1, h2, h3⟩ := hop
